@@ -6,8 +6,8 @@ The medium: bacpypes.vlan.Network subclassed so that process_pdu consults a faul
 schedule (deliver / drop / duplicate / hold-and-release-later / silence-from) and records
 every frame.  This is the library's own virtual LAN, the medium the properties name.
 """
-from bacpypes.comm import bind
-from bacpypes.pdu import Address, LocalBroadcast
+from bacpypes.comm import bind, Client
+from bacpypes.pdu import Address, LocalBroadcast, PDU
 from bacpypes.vlan import Network, Node
 from bacpypes.app import Application, ApplicationIOController
 from bacpypes.appservice import StateMachineAccessPoint, ApplicationServiceAccessPoint
@@ -30,22 +30,26 @@ VENDOR = 999
 # make paths depend on each other)
 LocalDeviceObject(objectName="_reg", objectIdentifier=("device", 4194302), vendorIdentifier=VENDOR)
 
-DROP, DUP, HOLD, SILENCE = 0, 1, 2, 3
-FAULT_NAMES = {DROP: "drop", DUP: "duplicate", HOLD: "hold", SILENCE: "silence-from"}
+DROP, DUP, HOLD, SILENCE, DELAY = 0, 1, 2, 3, 4
+FAULT_NAMES = {DROP: "drop", DUP: "duplicate", HOLD: "hold", SILENCE: "silence-from", DELAY: "delay"}
 
 
 class Fault:
-    """one fault: at frame number `index` (0-based count of frames put on the LAN) do
-    `kind`; for HOLD the frame is released after `arg` further frames were processed (or
-    at flush())"""
+    """one fault: at frame number `index` (0-based count of frames put on the LAN) do `kind`.
+    HOLD  = late arrival / reordering: the frame is delivered after `arg` younger frames, at the
+            latest when the LAN falls quiet at the same instant (no timer can expire meanwhile);
+    DELAY = the frame is delivered after `arg` younger frames however long that takes (timers
+            may expire and retransmissions start meanwhile), at the latest at flush()."""
 
     def __init__(self, index, kind, arg=1):
         self.index, self.kind, self.arg = index, kind, arg
 
 
 class FaultLAN(Network):
-    def __init__(self, faults=(), **kw):
+    def __init__(self, faults=(), world=None, **kw):
         Network.__init__(self, broadcast_address=LocalBroadcast(), **kw)
+        if world is not None:
+            world.before_sleep.append(self.release_late)
         self.faults = list(faults)
         self.n = 0
         self.frames = []      # (index, source, destination, bytes) of every frame offered
@@ -77,22 +81,34 @@ class FaultLAN(Network):
             Network.process_pdu(self, pdu)
         elif action.kind == HOLD:
             self.fate.append("held")
-            self.held.append([i + action.arg, pdu])
+            self.held.append([i + action.arg, pdu, True])
+            return
+        elif action.kind == DELAY:
+            self.fate.append("delayed")
+            self.held.append([i + action.arg, pdu, False])
             return
         # release what was held long enough (it arrives late, after younger frames)
         if self.held:
             keep = []
-            for rel, p in self.held:
+            for rel, p, same_instant in self.held:
                 if rel <= i and not self.silent:
                     Network.process_pdu(self, p)
                 else:
-                    keep.append([rel, p])
+                    keep.append([rel, p, same_instant])
             self.held = keep
+
+    def release_late(self):
+        """the LAN fell quiet at this instant: frames that were merely reordered arrive now"""
+        now_, self.held = [h for h in self.held if h[2]], [h for h in self.held if not h[2]]
+        for rel, p, _ in now_:
+            if not self.silent:
+                Network.process_pdu(self, p)
+        return bool(now_)
 
     def flush(self):
         """deliver frames still held (a delayed frame eventually arrives)"""
         held, self.held = self.held, []
-        for rel, p in held:
+        for rel, p, _ in held:
             if not self.silent:
                 Network.process_pdu(self, p)
         return len(held)
@@ -137,6 +153,7 @@ class _StackMixin:
         self.pt_result = None       # payload to answer private transfers with
         self.pt_mode = "ack"        # ack | error | reject | abort | silent
         self.pt_seen = []
+        self.pt_pending = []        # requests held back in mode "later"
 
     def indication(self, apdu):
         self.indications.append(apdu)
@@ -146,6 +163,9 @@ class _StackMixin:
     def do_ConfirmedPrivateTransferRequest(self, apdu):
         self.pt_seen.append(apdu)
         if self.pt_mode == "silent":
+            return
+        if self.pt_mode == "later":
+            self.pt_pending.append(apdu)
             return
         if self.pt_mode == "error":
             err = ConfirmedPrivateTransferError(context=apdu)
@@ -158,12 +178,39 @@ class _StackMixin:
             raise InvalidParameterDatatype("refused by the harness application")
         if self.pt_mode == "abort":
             raise AbortOther("aborted by the harness application")
+        self.pt_answer(apdu)
+
+    def pt_answer(self, apdu, result=None):
         ack = ConfirmedPrivateTransferACK(context=apdu)
         ack.vendorID = VENDOR
         ack.serviceNumber = 1
-        if self.pt_result is not None:
-            ack.resultBlock = Any(OctetString(self.pt_result))
+        if result is None:
+            result = self.pt_result
+        if result is not None:
+            ack.resultBlock = Any(OctetString(result))
         self.response(ack)
+
+
+class RawPeer(Client):
+    """a bare station on the LAN: sends hand-built frames, records what it receives"""
+
+    def __init__(self, addr, lan):
+        Client.__init__(self)
+        self.address = addr if isinstance(addr, Address) else Address(addr)
+        self.node = Node(self.address, lan)
+        bind(self, self.node)
+        self.received = []      # (source, bytes)
+
+    def confirmation(self, pdu):
+        self.received.append((pdu.pduSource, bytes(pdu.pduData)))
+
+    def send(self, dest, data):
+        self.request(PDU(bytes(data), destination=dest))
+
+
+def frame(apdu_octets, expecting_reply=False):
+    """LAN frame for a local (unrouted) APDU: NPCI version 1, control, then the APDU"""
+    return bytes([0x01, 0x04 if expecting_reply else 0x00]) + bytes(apdu_octets)
 
 
 class AppStack(_StackMixin, Application):
